@@ -48,13 +48,13 @@ func checkC07(c *Ctx) error {
 		"mode graphs with 1-3 modes besides the default (nested, self-recursive, re-entering the default mode with @push_mode()), tokens and fragments with @emit / @discard / no action, @push_mode and @pop_mode written at every position among a rule's actions; no rule matches the empty string. Inputs as in C02 (sampled matches of rules of all modes, near matches, boundary characters, invalid UTF-8, ends in the middle of a construct). Observed: the token stream of the real driver AND, through a wrapper around the real state machine, every accept / discard / try-again result with the mode index and mode-stack depth right after it. Reference: mode-stack interpreter over regex derivatives that applies ALL actions of the matching rule. Non-trivial: inputs on which at least one push or pop took effect before the first ERROR; distinct by spec+input.")
 	c.Ev.Assumptions = []string{
 		"mode index = position among the sorted mode names with the default mode first",
-		"at most one mode action per rule; a @pop_mode on an empty stack and everything after the first ERROR are outside the comparison",
+		"a rule may carry two mode actions (pop then push = replace the current mode; push then push): they take effect one after the other in the order written; a @pop_mode on an empty stack and everything after the first ERROR are outside the comparison",
 		"accumulated text becomes the beginning of the next emitted or discarded text",
 	}
 	return runLexCheck(c, &lexCheckSpec{
 		id: "C07",
 		opts: func(r *rng.R) specgen.LexOpts {
-			return specgen.LexOpts{Wide: r.Chance(1, 3), Modes: true, Frags: true, Macros: r.Chance(1, 3), NoNullable: true, MaxRules: 5}
+			return specgen.LexOpts{Wide: r.Chance(1, 3), Modes: true, Frags: true, Macros: r.Chance(1, 3), NoNullable: true, MaxRules: 5, TwoModeActions: true}
 		},
 		accept:   noNullableRule,
 		nBatches: [2]int{3, 40}, nCLI: [2]int{1, 5}, per: 28,
